@@ -1,6 +1,7 @@
 #include <fault/util.hpp>
 
 #include <yaclib/fault/detail/atomic.hpp>
+#include <yaclib/fault/verif.hpp>
 
 #include <atomic>
 
@@ -9,6 +10,13 @@ namespace yaclib::detail {
 static std::uint32_t sAtomicFailFrequency = 13;
 
 bool ShouldFailAtomicWeak() {
+#ifdef YACLIB_VERIF
+  if (auto* f = verif::GetHooks().weak_fail) {
+    if (int r = f(); r >= 0) {
+      return r != 0;
+    }
+  }
+#endif
   auto freq = sAtomicFailFrequency;
   return freq != 0 && GetRandNumber(freq) == 0;
 }
